@@ -101,13 +101,15 @@ def is_z3(v):
 
 
 def is_scalar(v):
-    return is_z3(v) or isinstance(v, (int, float, bool))
+    return is_z3(v) or isinstance(v, (int, float, bool)) or isinstance(v, IvVal)
 
 
 def Z(v):
     """coerce a scalar to a z3 term"""
     if is_z3(v):
         return v
+    if isinstance(v, IvVal):
+        return v.a
     if isinstance(v, bool):
         return z3.BoolVal(v)
     if isinstance(v, int):
@@ -166,6 +168,8 @@ def to_int(v):
 
 def num(v):
     """numeric view of a scalar (bools become 0/1 ints)"""
+    if isinstance(v, IvVal):
+        return v.a
     if isinstance(v, bool):
         return 1 if v else 0
     if is_z3(v) and z3.is_bool(v):
@@ -350,6 +354,15 @@ class SGen:
         self.state = state
 
     def type(self): return TOpaque('gen')
+
+
+class IvVal:
+    """value of an intervention dict: a 2-tuple (a, b), a python int a, a python float a, or something else.
+    kind (z3 Int): 0 tuple of length 2, 1 int, 2 float, 3 anything else"""
+    def __init__(self, kind, a, b):
+        self.kind, self.a, self.b = kind, a, b
+
+    def type(self): return TOpaque('ivval')
 
 
 class Ref:
